@@ -89,6 +89,8 @@ def batch_program(seqs, bi: int) -> Tuple[defx.Program, Dict[str, Any]]:
                              # user messages with ids the core definitions leave free below 100
                              "LOW_ID_STATUS": {"id": 95, "fields": {"a": "int32", "b": "double"}}, "LOW_ID_SIG": {"id": 3, "fields": None},
                              "LOW_ID_EDGE": {"id": 99, "fields": {"c": "char[8]"}},
+                             # ... and three-digit ids (with and without the digits 8 and 9)
+                             "ID_123": {"id": 123, "fields": None}, "ID_189": {"id": 189, "fields": {"a": "int8"}}, "ID_777": {"id": 777, "fields": None}, "ID_100": {"id": 100, "fields": None},
                              "_RESERVED_": {"id": [5990, "5992 - 5994"]}}}
     parts = [{"struct_defs": {}, "message_defs": {}}, {"struct_defs": {}, "message_defs": {}}, {"struct_defs": {}, "message_defs": {}}]
     meta = {}
@@ -208,6 +210,9 @@ def m_expect(sp, name):
 def num(v):
     if isinstance(v, str):
         v = v.strip().strip('"').strip("'")
+        # (C reads a literal with a leading zero as octal - and refuses it when it has a digit 8 or 9)
+        if len(v) > 1 and v[0] == "0" and v.isdigit():
+            return int(v, 8) if all(ch in "01234567" for ch in v) else f"invalid C literal {v}"
         try:
             return int(v, 0)
         except ValueError:
@@ -430,6 +435,71 @@ def check_batch(args) -> Dict[str, Any]:
     return {"problems": problems, "stats": stats}
 
 
+def cli_accepts(_=None) -> Dict[str, Any]:
+    """the command line entry point with layout options given in the root file / on the command line: whenever it ACCEPTS a file
+    (exit 0), the size it recorded for every definition is the size of the generated Python class and of the C struct"""
+    import contextlib
+    import io
+    import sys
+    import pyrtma.compile as pc
+    import pyrtma.compilers.python as pyc
+    from .. import valx
+
+    problems: List[Dict[str, Any]] = []
+    stats = {"cli_runs": 0, "cli_accepted": 0}
+    d = core.scratch_dir("c04cli")
+    try:
+        unpadded = {"code": "int8", "stamp": "double", "count": "int16"}
+        padded = {"code": "int8", "p0": "char[7]", "stamp": "double", "count": "int16", "p1": "char[6]"}
+        k = 0
+        for opts in ({}, {"AUTO_PAD": "false"}, {"AUTO_PAD": "true"}, {"VALIDATE_ALIGNMENT": "true"}, {"AUTO_PAD": "false", "VALIDATE_ALIGNMENT": "true"}, {"IMPORT_COREDEFS": "false", "AUTO_PAD": "false"}):
+            for fields, fname in ((unpadded, "unpadded"), (padded, "padded")):
+                for flags in ([], ["--no_auto_pad"]):
+                    k += 1
+                    sub = os.path.join(d, f"c{k}")
+                    os.makedirs(sub)
+                    lines = (["compiler_options:"] + [f"  {a}: {b}" for a, b in opts.items()] if opts else []) + ["message_defs:", "  CLI_M:", "    id: 4700", "    fields:"] + [f"      {a}: {b}" for a, b in fields.items()]
+                    root = os.path.join(sub, "root.yaml")
+                    with open(root, "w") as fh:
+                        fh.write("\n".join(lines) + "\n")
+                    argv, old = sys.argv, pyc.subprocess
+                    sys.argv = ["pyrtma.compile", "-i", root, "--python", "--c", "-o", sub] + flags
+                    pyc.subprocess = valx._Subprocess(False)
+                    code: Any = 0
+                    try:
+                        with contextlib.redirect_stdout(io.StringIO()), contextlib.redirect_stderr(io.StringIO()):
+                            pc.main()
+                    except SystemExit as e:
+                        code = int(e.code or 0)
+                    except Exception as e:
+                        code = type(e).__name__
+                    finally:
+                        pyc.subprocess, sys.argv = old, argv
+                    stats["cli_runs"] += 1
+                    if code != 0:
+                        continue  # refused: nothing to compare
+                    stats["cli_accepted"] += 1
+                    case = {"options_in_file": opts, "flags": flags, "fields": fname}
+                    try:
+                        py = defx.sig_python(os.path.join(sub, "root.py"))
+                        pd = py["defs"]["CLI_M"]
+                        if pd["size"] != pd["recorded_size"]:
+                            problems.append({"kind": "python-size", "lang": "python", "name": "CLI_M", "ctypes": pd["size"], "recorded": pd["recorded_size"], "cli": case})
+                        c = defx.sig_c(os.path.join(sub, "root.h"), sub, defx.core_header(sub))
+                        cd_ = (c.get("defs") or {}).get("CLI_M")
+                        if c.get("error") or cd_ is None:
+                            problems.append({"kind": "c-header", "lang": "c", "exc": str(c.get("error"))[:200], "cli": case})
+                        elif cd_["size"] != pd["recorded_size"]:
+                            problems.append({"kind": "c-size", "lang": "c", "name": "CLI_M", "gcc": cd_["size"], "recorded": pd["recorded_size"], "cli": case})
+                    except core.HarnessError:
+                        raise
+                    except Exception as e:
+                        problems.append({"kind": "python-import", "lang": "python", "exc": f"{type(e).__name__}: {str(e)[:160]}", "cli": case})
+    finally:
+        core.rmtree(d)
+    return {"problems": [dict(p, batch="cli") for p in problems], "stats": stats}
+
+
 def run(tier: str) -> int:
     chk = core.Check("C04", tier, "exploration",
                      "field sequences over 26 native names + aliases + nested structs/message x 7 length forms, packed ~250 definitions "
@@ -446,6 +516,7 @@ def run(tier: str) -> int:
                                                                              # words another target language reserves (legal in Python, C and JavaScript)
                                                                              "end", "otherwise", "persistent"))]
     res = core.pmap(check_batch, batches + rebuilds + names)
+    res.append(cli_accepts())
     core.close_pool()
     totals: Dict[str, int] = {}
     for r in res:
